@@ -381,8 +381,19 @@ fn main() {
         grid(&a, d);
         return;
     }
+    if std::env::args().nth(1).as_deref() == Some("--batch") {
+        // --batch <scenario>...: one JSON line per scenario file, in order (a panic inside the crate is caught per scenario)
+        for a in std::env::args().skip(2) {
+            run_one(&a);
+        }
+        return;
+    }
     let path = std::env::args().nth(1).expect("scenario file");
-    let text = std::fs::read_to_string(&path).expect("read scenario");
+    run_one(&path);
+}
+
+fn run_one(path: &str) {
+    let text = std::fs::read_to_string(path).expect("read scenario");
     let mut signals = vec![];
     let mut cfg = Cfg { value: "const 0".into(), layout: "fwd".into(), ..Default::default() };
     let mut maxrows = 64usize;
